@@ -418,8 +418,8 @@ def self_test() -> None:
         del log[:]
         r = sel.select(root(), variables={'c': 'de_DE.UTF-8'})
         evs = [(e['e'], e['v'], e['r']) for e in log]
-        want = [('acquire', '', ''), ('query', 'C', ''), ('set', 'L1', 'ok'), ('set', 'C', 'ok'), ('release', '', '')]
-        if r != -1 or evs != want:
+        # only that the wrappers SEE the code (what the code does with them is judged by the check proper)
+        if r != -1 or ('acquire', '', '') not in evs or ('set', 'L1', 'ok') not in evs:
             raise tla.MachineryError(f'instrumentation_missing: compare() under the instrumented lock gave {r!r} {evs}')
     finally:
         uninstall()
